@@ -296,12 +296,71 @@ def run(ctx, res):
         key = f"u5:{d['path']}"
         if any(v["key"] == key for v in res.violations):
             continue
-        res.add_violation(key, f"correspondence U5 differs on {d['date']} at {d['path']}: implementation {d['impl']}, model {d['model']}",
-                          dict(kind="u5", **d), False)
+        want = yaml_oracle(d["path"], d["date"])
+        got = impl_leaf(d["path"], d["date"])
+        if want is not None and isinstance(got, (int, float)) and not isinstance(got, bool) and abs(float(got) - float(want)) > 1e-9 * max(1.0, abs(float(want))):
+            res.add_violation(key, f"on {d['date']} {d['path']} = {got} in the implementation's environment, but the law in force (raw YAML, evaluated "
+                              f"independently) gives {float(want)}", dict(kind="u5", **d, yaml_value=str(want), implementation_value=got), True)
+        else:
+            res.add_violation(key, f"correspondence U5 differs on {d['date']} at {d['path']}: implementation {d['impl']}, model {d['model']}",
+                              dict(kind="u5", **d), False)
         reported += 1
     for o in failing_obl:
         res.add_violation(f"obligation:{o['name'].split('_')[1]}", f"obligation {o['name']} no longer checks: {(o.get('diag') or o['err'])[:300]}",
                           dict(kind="obligation", obligation=o["name"], what=o["what"], diag=o.get("diag"), err=o.get("err")), False)
+
+
+DERIVED_FROM_YEAR = {("eink_st_abzuege", "einführungsfaktor_vorsorgeaufw_alter_ab_2005"): "einführungsfaktor",
+                     ("eink_st_abzuege", "vorsorgepauschale_rentenv_anteil"): "vorsorgepauschale_rentenv_anteil"}
+
+
+def _path_keys(path):
+    import re
+
+    return re.findall(r"\['([^']+)'\]", path)
+
+
+def impl_leaf(path, date):
+    """the implementation's value at params[...][...] on that date"""
+    try:
+        v, _ = impl.env(impl.ordinal(date))
+        for k in _path_keys(path):
+            v = v[k]
+        return v
+    except Exception:  # noqa: BLE001
+        return None
+
+
+def yaml_oracle(path, date):
+    """independent reading of the raw YAML: the two parameters derived from the year of the date are the value of their
+    piecewise-linear schedule (latest entry on or before the date) at that year; a plain scalar parameter is the latest
+    entry's scalar"""
+    import datetime
+    from fractions import Fraction
+
+    ks = _path_keys(path)
+    if len(ks) != 2:
+        return None
+    g, k = ks
+    o = impl.ordinal(date)
+    try:
+        if (g, k) in DERIVED_FROM_YEAR:
+            import props.c18 as c18
+
+            year = datetime.date.fromordinal(o).year
+            return c18.spec_eval_yaml(g, DERIVED_FROM_YEAR[(g, k)], o, Fraction(year)) if year >= 2005 else None
+        raw = impl.raw_yaml(g).get(k)
+        if not isinstance(raw, dict):
+            return None
+        dates = sorted(dd for dd in raw if isinstance(dd, datetime.date) and dd.toordinal() <= o)
+        if not dates:
+            return None
+        ent = raw[dates[-1]]
+        if isinstance(ent, dict) and set(ent) - {"note", "reference"} <= {"scalar"} and isinstance(ent.get("scalar"), (int, float)) and not isinstance(ent.get("scalar"), bool):
+            return Fraction(repr(float(ent["scalar"])))
+    except Exception:  # noqa: BLE001
+        return None
+    return None
 
 
 def replay(payload):
